@@ -244,35 +244,16 @@ func shrink(t *testing.T, e Engine, spec bool, c Case) (Case, []string, []string
 
 	deadline := time.Now().Add(30 * time.Second)
 
-	for chunk := len(c.Ops) / 2; chunk >= 1; {
-		progressed := false
-
-		for start := 0; start+chunk <= len(c.Ops) && time.Now().Before(deadline); {
+	for chunk := max(len(c.Ops)/2, 1); chunk >= 1 && time.Now().Before(deadline); chunk /= 2 {
+		for start := 0; start+chunk <= len(c.Ops) && len(c.Ops) > 1 && time.Now().Before(deadline); {
 			ops := append(append([]string{}, c.Ops[:start]...), c.Ops[start+chunk:]...)
 			c2 := Case{Header: c.Header, Ops: ops}
 
-			if ok2, i2, d2, f2 := differs(c2); ok2 && len(ops) > 0 {
+			if ok2, i2, d2, f2 := differs(c2); ok2 {
 				c, impl, drv, d = c2, i2, d2, f2
-				progressed = true
 			} else {
 				start += chunk
 			}
-		}
-
-		if !progressed || chunk == 1 {
-			if chunk == 1 && !progressed {
-				break
-			}
-		}
-
-		if chunk > 1 {
-			chunk /= 2
-		} else if !progressed {
-			break
-		}
-
-		if time.Now().After(deadline) {
-			break
 		}
 	}
 
